@@ -342,3 +342,37 @@ func C15ConcurrentSameName() {
 	_, _ = idLocal, idRemote
 	sym.Reach("same-name-done")
 }
+
+// C15UpdateVsUnregister: an update of a ready service races with its removal (remote update vs the
+// hosting server's local Remove): whatever the order, once unregister has succeeded the service is gone:
+// not visible to lookup or list, its name free again, exactly [added, removed] emitted.
+func C15UpdateVsUnregister() {
+	sym.RacyScope("bus/directory.")
+	d := serviceDirectoryImpl()
+	sig := &zzSignals{}
+	d.signal = sig
+	id, err := d.RegisterService(zzInfo("svc", 0))
+	sym.Assert(err == nil, "update-race/register")
+	sym.Assert(d.ServiceReady(id) == nil, "update-race/ready")
+	done := make(chan bool, 2)
+	var errUpdate, errUnreg error
+	go func() {
+		info := zzInfo("svc", id)
+		info.Endpoints = []string{"tcp://moved"}
+		errUpdate = d.UpdateServiceInfo(info)
+		done <- true
+	}()
+	go func() { errUnreg = d.UnregisterService(id); done <- true }()
+	<-done
+	<-done
+	sym.Assert(errUnreg == nil, "update-race/unregister-failed")
+	_, lookupErr := d.Service("svc")
+	sym.Assert(lookupErr != nil, "update-race/service-visible-after-unregister")
+	list, _ := d.Services()
+	sym.Assert(len(list) == 0, "update-race/service-listed-after-unregister")
+	sym.Assert(len(sig.log) == 2, "update-race/events")
+	_, err = d.RegisterService(zzInfo("svc", 0))
+	sym.Assert(err == nil, "update-race/name-not-free-after-unregister")
+	_ = errUpdate
+	sym.Reach("update-race-done")
+}
